@@ -3,21 +3,11 @@
 (* registry (one fresh process each, starting with "boot") must be          *)
 (* behaviours of TypeReg.  The range constants and the built-in size table  *)
 (* come from the driver's "sizes" record (enum values of types.h and sizeof *)
-(* of the C types), read from $SIZES.  A registration is accepted with the  *)
+(* of the C types), written as module TypeRegSizes by checks/c06.py.  A registration is accepted with the  *)
 (* identifier the real code chose as long as Tier 1 calls it legal.         *)
-EXTENDS TypeReg, Json, IOUtils
+EXTENDS TypeReg, TypeRegSizes, Json, IOUtils
 VARIABLE l
 TraceLog == ndJsonDeserialize(IOEnv.TRACE)
-SizeLog  == ndJsonDeserialize(IOEnv.SIZES)[1]
-
-FIfBase == SizeLog.ifbase     FIfAdd == SizeLog.ifadd      FIfCap == SizeLog.ifcap
-FDynBase == SizeLog.dynbase   FDynCap == SizeLog.dyncap
-FMetaBase == SizeLog.metabase FMetaCap == SizeLog.metacap
-FGenBase == SizeLog.genbase   FGenCap == SizeLog.gencap
-FPtr == SizeLog.ptr
-FEntries == {SizeLog.fixed[i] : i \in DOMAIN SizeLog.fixed}
-FFixed == [id \in {e.id : e \in FEntries} |->
-             LET e == CHOOSE x \in FEntries : x.id = id IN [size |-> e.size, managed |-> e.managed]]
 FBuiltinIf == <<"convertable", "logger", "reply", "output", "object", "config", "iterator", "collection", "solver">>
 
 Boot ==
